@@ -110,6 +110,29 @@ mod string_arithmetic {
 
     exact_shift!(i32, i128, u8);
 
+    /// `x % -1` is 0 for every x (`checked_rem` reports an overflow for the minimum value).
+    trait ExactRem: Sized {
+        fn exact_rem(self, rhs: Self) -> Option<Self>;
+    }
+
+    impl ExactRem for i32 {
+        fn exact_rem(self, rhs: Self) -> Option<Self> {
+            if rhs == -1 { Some(0) } else { self.checked_rem(rhs) }
+        }
+    }
+
+    impl ExactRem for i128 {
+        fn exact_rem(self, rhs: Self) -> Option<Self> {
+            if rhs == -1 { Some(0) } else { self.checked_rem(rhs) }
+        }
+    }
+
+    impl ExactRem for u8 {
+        fn exact_rem(self, rhs: Self) -> Option<Self> {
+            self.checked_rem(rhs)
+        }
+    }
+
     macro_rules! parse {
         ($val:expr, $ty:ty) => {
             <std::result::Result<_, _> as anyhow::Context<_, _>>::with_context(
@@ -312,7 +335,7 @@ mod string_arithmetic {
     number_impl!(bitshift exact_shl as Shl, shl);
     number_impl!(bitshift exact_shr as Shr, shr);
     number_impl!(fpNonzero checked_div as Div, div);
-    number_impl!(fpNonzero checked_rem as Rem, rem);
+    number_impl!(fpNonzero exact_rem as Rem, rem);
     number_impl!(infallible bitand as BitAnd, bitand);
     number_impl!(infallible bitor as BitOr, bitor);
     number_impl!(infallible bitxor as BitXor, bitxor);
